@@ -180,7 +180,7 @@ def run(tier, seed, t0):
     e3 = _e3.E3("C15")
     try:
         precedence(e3)
-    except (sym.Unsupported, KeyError, IndexError) as ex:
+    except _e3.ENC_ERRORS as ex:
         e3.error("c15_precedence", "MIR->SMT encoding of DistributionBuilder", ex)
     obs = list(e3.res.obligations)
     obs += kani.run_group("util", HARNESSES, tier, hooks=True)
